@@ -202,3 +202,12 @@ Proof.
   - intros b v. apply (add_circuit_base_gates base other name ap r Wb Wo H).
   - intros a'. apply (add_circuit_other_gates base other name ap r Wb Wo H).
 Qed.
+
+(* the labels given to the copied gates are not labels of base (both directions) *)
+Theorem connect_new_labels_fresh base other tc oc right name ap r :
+  WF other -> connect_circuit base other tc oc right name ap = Ok r ->
+  forall l, has_gate other l = true -> dget (build_mapping oc tc []) l = None ->
+            has_gate base (conn_ren tc oc name ap l) = false.
+Proof.
+  intros Wo H. exact (cs_fresh _ _ _ _ _ _ _ _ (connect_circuit_spec base other tc oc right name ap r Wo H)).
+Qed.
